@@ -726,6 +726,8 @@ def _build_raw_mechanism(sc: dict, decisions=None):
                 dfs.append(sf.NBC_FarEnough(f["factor"], o, f.get("check_only_active", False)))
             elif f["kind"] == "DemeLimit":
                 dfs.append(sf.DemeLimit(int(f["limit"])))
+            elif f["kind"] == "MahalanobisFarEnough":
+                dfs.append(sf.MahalanobisFarEnough(float(f["percentile"])))
         tfs = []
         for f in s.get("tree_filters", []):
             if f["kind"] == "LevelLimit":
@@ -941,6 +943,13 @@ class Run:
         self.ended = True
         if self.timed_out:
             return
+        if self.tree is not None and not self.crash:
+            # the state run() returned with is a metaepoch boundary whether or not the loop consulted the condition once
+            # more at its head (no-op if that boundary has been observed already)
+            try:
+                self._boundary(self.tree)
+            except Exception as e:  # noqa: BLE001
+                self.crash = (crash_bucket(e), "".join(traceback.format_exception(e))[-1500:])
         for ch in self.checkers:
             ch.on_end(self)
 
